@@ -373,12 +373,7 @@ impl<'s, P: Clone + Eq, R: FnMut(Import<&'s str, P>) -> ReadResult<P>> Loader<&'
     }
 
     fn find(&mut self, arena: &'s Arena, import: Import<&'s str, P>) -> Result<usize, String> {
-        let file = (self.read)(import);
-        #[cfg(jaq_verif)]
-        if file.is_err() {
-            verif_event("ReadErr", 0);
-        }
-        let file = file?;
+        let file = (self.read)(import)?;
 
         let mut mods = self.mods.iter();
         if let Some(id) = mods.position(|(file_, _)| file.path == file_.path) {
